@@ -90,6 +90,27 @@ def build_labelled_mdp(case):
     return mdp, slab, alab
 
 
+class TrainingDoesNotTerminate(Exception):
+    pass
+
+
+def train_with_watchdog(learner, mdp, seconds=int(os.environ.get("C17_TRAIN_TIMEOUT", "90"))):
+    """train_on under an alarm: the generated MDPs are proper (episodes end with probability 1) and the value
+    iteration is a contraction, so a training that is still running after minutes (the slowest generated one
+    takes a few seconds) is reported as an error of that case instead of hanging the whole run"""
+    import signal
+
+    def on_alarm(signum, frame):
+        raise TrainingDoesNotTerminate("train_on still running after %d s" % seconds)
+    old = signal.signal(signal.SIGALRM, on_alarm)
+    signal.alarm(seconds)
+    try:
+        return learner.train_on(mdp)
+    finally:
+        signal.alarm(0)
+        signal.signal(signal.SIGALRM, old)
+
+
 def collect(learner, view, mdp_parts=None, policy_when="before"):
     """one train_on call of the given learner object on the MDP of `view` (or on the already built
     and already used MDP object mdp_parts), with everything the certificate needs, mapped back by label.
@@ -103,7 +124,7 @@ def collect(learner, view, mdp_parts=None, policy_when="before"):
     state_id = {x: i for i, x in enumerate(slab)}             # label -> generator state id
     label_id = {x: i for i, x in enumerate(alab)}             # label -> generator action id
     before = mdp._c17_snapshot()
-    res = learner.train_on(mdp)
+    res = train_with_watchdog(learner, mdp)
     after = mdp._c17_snapshot()
     mutated = [k for k in before if before[k] != after[k]]
     episodes = [{"steps": [[sidx[s], aidx[a], fj(r), sidx[ns], int(ai)] for (s, a, r, ns, ai) in ep["steps"]],
@@ -181,9 +202,30 @@ def one(case, pl):
 
     ints = case.get("ints_as_int", False)
 
+    def typed_rmax(view):
+        """the rmax ARGUMENT in the numeric type the case asks for (always equal in value to the float64 maximum)"""
+        import numpy as np
+        t = view.get("rmax_type")
+        f = Fraction(view["rmax"])
+        if t == "float32":
+            return np.float32(float(f))
+        if t == "float64":
+            return np.float64(float(f))
+        if t == "int64":
+            return np.int64(int(f))
+        if t == "int":
+            return int(f)
+        if t == "float":
+            return float(f)
+        return num(view["rmax"], view.get("ints_as_int", False))
+
+    def typed_int(x):
+        import numpy as np
+        return np.int64(int(x)) if case.get("int_args_type") == "int64" else int(x)
+
     def make(listener=None):
-        kw = dict(episodes=int(case["episodes"]), rmax=num(case["rmax"], ints),
-                  num_transition_samples=int(case["m"]),
+        kw = dict(episodes=typed_int(case["episodes"]), rmax=typed_rmax(case),
+                  num_transition_samples=typed_int(case["m"]),
                   bellman_convergence_diff=fl(case["tol"]),
                   seed=None if case["seed"] is None else int(case["seed"]))
         if listener is not None:
@@ -197,7 +239,7 @@ def one(case, pl):
         # a second, fresh object of the class with the DEFAULT listener, on the already-used MDP object
         #   or on the same problem constructed a second time (class-/module-level caches)
         rerun_mdp = build_labelled_mdp(case)[0] if case.get("rerun_fresh_mdp") else parts[0]
-        r2 = make().train_on(rerun_mdp)
+        r2 = train_with_watchdog(make(), rerun_mdp)
         sl = list(parts[0].state_list)
         al = list(parts[0].action_list)
         out["rerun"] = {"episode_rewards": [fj(x) for x in r2.event_listener_results.episode_rewards],
@@ -207,7 +249,7 @@ def one(case, pl):
         # second problem with its own discount rate, rewards, rmax)
         view = {k: v for k, v in case.items() if k != "then"}
         view.update(case["then"])
-        learner.rmax = num(view["rmax"], view.get("ints_as_int", False))
+        learner.rmax = typed_rmax(view)
         learner.seed = None if view["seed"] is None else int(view["seed"])
         try:
             out["second"] = collect(learner, view, parts if view.get("same_mdp_object") else None)[0]
